@@ -4,6 +4,7 @@ import RbV.Lemmas.TracebackRing
 import RbV.Lemmas.TracebackScan
 import RbV.Lemmas.TracebackLongSound
 import RbV.Thm.GenSrcMyersSimple
+import RbV.Thm.GenSrcMyersTb
 /-!
 # C10 — Myers traceback yields valid alignments
 
@@ -503,5 +504,60 @@ theorem myers_step_source_eq_model (w wd m : Nat) (hw : 1 < w) (peqT : List Nat)
 
 example : RbV.Gen.SrcMyersSimple.step_ (w := 8) (wd := 8) (peq := [0, 0b101, 0b010, 0]) (bound := 0b100) (pv := 255) (mv := 0)
     (dist := 3) (a := 1) = RbV.Rs.Res.ok (254, 0, 2) := by decide
+
+/-! ### The cursor moves of the single-word traceback handler, translated from the source text (genlong)
+
+`RbV/Gen/SrcMyersTbState.lean` (`State::adjust_dist`, `State::max`), `RbV/Gen/SrcMyersTbShort.lean`
+(`ShortTracebackHandler::{move_up, move_up_left, move_left_down_if_better, finished, pos_bitvec}`); proofs `Thm/GenSrcMyersTb.lean`. -/
+
+/-- **`traceback_source_eq_model`, proved fragment**: the cursor moves of `ShortTracebackHandler` and `State::adjust_dist` /
+`State::max`, as written, are the functions `Handler.moveUp`, `moveUpLeft`, `moveLeftDownIfBetter`, `finished`, `adjustDist`,
+`maxSt` of the stored-state pipeline model behind `traceback_model_sound` — every word width `w ≥ 2`; side conditions: the
+checked `dist -= 1` / `dist += 1` stay inside `DistType` (true along every traceback of a hit: `handler_reads_true_cells`).
+**Missing for the full statement**: `ShortTracebackHandler::new` / `move_to_left` (the iterator chain over the ring),
+`State::adjust_by_mask` (`count_ones`), `Traceback::{new, add_state, traceback_at, _traceback_at}` (generic over the handler
+traits; the loop with `break`), hence also the corollary `traceback_source_sound` and everything of `LongTracebackHandler` — these
+stay tied by the mirror model + `tb-state-model-same` on every sampled search. -/
+theorem traceback_source_eq_model_partial (w wd : Nat) (h : RbV.Model.MyersTraceback.Handler w) (hw : 1 < w) (adj : Bool)
+    (hs : adj = true → (h.state.pv &&& h.pos) ≠ 0#w → 1 ≤ h.state.dist) (hsh : h.state.dist + 1 < 2 ^ wd)
+    (hl : adj = true → (h.left.pv &&& h.pos) ≠ 0#w → 1 ≤ h.left.dist) (hlh : h.left.dist + 1 < 2 ^ wd)
+    (hd : (h.left.mv &&& h.pos) ≠ 0#w → 1 ≤ h.left.dist) :
+    RbV.Gen.SrcMyersTbShort.moveUp (w := w) (wd := wd) (pv := h.state.pv.toNat) (mv := h.state.mv.toNat) (dist := h.state.dist)
+        (left_state_pv := h.left.pv.toNat) (left_state_mv := h.left.mv.toNat) (left_state_dist := h.left.dist)
+        (max_mask := h.maxMask.toNat) (pos_bitvec := h.pos.toNat) (left_mask := h.leftMask.toNat) (adjust_dist := adj) =
+      RbV.Rs.Res.ok ((h.moveUp adj).state.dist, (h.moveUp adj).pos.toNat) ∧
+    RbV.Gen.SrcMyersTbShort.moveUpLeft (w := w) (wd := wd) (pv := h.state.pv.toNat) (mv := h.state.mv.toNat) (dist := h.state.dist)
+        (left_state_pv := h.left.pv.toNat) (left_state_mv := h.left.mv.toNat) (left_state_dist := h.left.dist)
+        (max_mask := h.maxMask.toNat) (pos_bitvec := h.pos.toNat) (left_mask := h.leftMask.toNat) (adjust_dist := adj) =
+      RbV.Rs.Res.ok ((h.moveUpLeft adj).left.dist, (h.moveUpLeft adj).leftMask.toNat) ∧
+    RbV.Gen.SrcMyersTbShort.moveLeftDownIfBetter (w := w) (wd := wd) (pv := h.state.pv.toNat) (mv := h.state.mv.toNat)
+        (dist := h.state.dist) (left_state_pv := h.left.pv.toNat) (left_state_mv := h.left.mv.toNat)
+        (left_state_dist := h.left.dist) (max_mask := h.maxMask.toNat) (pos_bitvec := h.pos.toNat) (left_mask := h.leftMask.toNat) =
+      RbV.Rs.Res.ok (h.moveLeftDownIfBetter.2.left.dist, h.moveLeftDownIfBetter.1) ∧
+    RbV.Gen.SrcMyersTbShort.finished (w := w) (wd := wd) (pv := h.state.pv.toNat) (mv := h.state.mv.toNat)
+        (dist := h.state.dist) (left_state_pv := h.left.pv.toNat) (left_state_mv := h.left.mv.toNat)
+        (left_state_dist := h.left.dist) (max_mask := h.maxMask.toNat) (pos_bitvec := h.pos.toNat) (left_mask := h.leftMask.toNat) =
+      RbV.Rs.Res.ok h.finished ∧
+    RbV.Gen.SrcMyersTbState.max (w := w) (wd := wd) =
+      RbV.Rs.Res.ok (RbV.Thm.GenSrcMyersSimple.rep (RbV.Model.MyersTraceback.maxSt w (2 ^ wd - 1))) :=
+  ⟨RbV.Thm.GenSrcMyersTb.moveUp_eq_model w wd h hw adj hs hsh, RbV.Thm.GenSrcMyersTb.moveUpLeft_eq_model w wd h hw adj hl hlh,
+   RbV.Thm.GenSrcMyersTb.moveLeftDownIfBetter_eq_model w wd h hd, (RbV.Thm.GenSrcMyersTb.finished_eq_model w wd h).1,
+   RbV.Thm.GenSrcMyersTb.max_eq_model w wd⟩
+
+/-- **`State::adjust_dist(pos_mask)`, as written** = the model's `adjustDist` -/
+theorem adjust_dist_source_eq_model (w wd : Nat) (s : RbV.Model.MyersSimple.St w) (pm : BitVec w)
+    (hlo : (s.pv &&& pm) ≠ 0#w → 1 ≤ s.dist) (hhi : s.dist + 1 < 2 ^ wd) :
+    RbV.Gen.SrcMyersTbState.adjustDist (w := w) (wd := wd) (pv := s.pv.toNat) (mv := s.mv.toNat) (dist := s.dist)
+        (pos_mask := pm.toNat) = RbV.Rs.Res.ok (RbV.Model.MyersTraceback.adjustDist s pm).dist :=
+  RbV.Thm.GenSrcMyersTb.adjustDist_eq_model w wd s pm hlo hhi
+
+-- non-vacuity: `u8` handler at row 3 of a 3-symbol pattern (`pos = 0b100`): `move_up(true)` over a set `pv` bit, and the
+-- panic outside the side condition (`dist = 0`)
+example : RbV.Gen.SrcMyersTbShort.moveUp (w := 8) (wd := 8) (pv := 0b111) (mv := 0) (dist := 3) (left_state_pv := 0b111)
+    (left_state_mv := 0) (left_state_dist := 2) (max_mask := 0b100) (pos_bitvec := 0b100) (left_mask := 0) (adjust_dist := true) =
+    RbV.Rs.Res.ok (2, 0b10) := by decide
+example : RbV.Gen.SrcMyersTbShort.moveUp (w := 8) (wd := 8) (pv := 0b111) (mv := 0) (dist := 0) (left_state_pv := 0b111)
+    (left_state_mv := 0) (left_state_dist := 2) (max_mask := 0b100) (pos_bitvec := 0b100) (left_mask := 0) (adjust_dist := true) =
+    RbV.Rs.Res.panic := by decide
 
 end RbV.Thm.C10
